@@ -260,8 +260,11 @@ class Coordinator(object):
             self._heartbeat_looper_d.addErrback(self._heartbeat_timer_failed)
             self._heartbeat_looper_d.addBoth(self._heartbeat_timer_stopped)
 
-    @inlineCallbacks
-    def stop(self, errback_result=None):
+    def _begin_stop(self, errback_result=None):
+        """
+        Fence off the group machinery: from here on no heartbeat is sent, no
+        rejoin is started and a join in progress gives up at its next step.
+        """
         if self._start_d is None:
             raise RestopError("Shutdown called on non-running coordinator")
 
@@ -282,6 +285,13 @@ class Coordinator(object):
             if self._heartbeat_looper.running:
                 self._heartbeat_looper.stop()
 
+    @inlineCallbacks
+    def stop(self, errback_result=None):
+        self._begin_stop(errback_result)
+        yield self._finish_stop(errback_result)
+
+    @inlineCallbacks
+    def _finish_stop(self, errback_result=None):
         self._state = "[leaving]"
         if self.coordinator_broker is not None and self.member_id:
             try:
@@ -866,5 +876,8 @@ class ConsumerGroup(Coordinator):
         This waits for any ongoing processing to complete and commits offsets.
         It may take some time.
         """
+        # Stop heartbeats and rejoins first: a rebalance completing while the
+        # consumers shut down would start new consumers that nothing stops.
+        self._begin_stop(errback_result)
         yield self.shutdown_consumers()
-        yield super(ConsumerGroup, self).stop(errback_result=errback_result)
+        yield self._finish_stop(errback_result)
